@@ -47,8 +47,16 @@ def scaling_last(repo, rep):
                      "applied afterwards (or a missing rescale after a shape factor) leaves the spectrum with another significant height")
     # scaled(): (hs / spec.spec.hs()) ** 2 * spec
     fi = repo.func("wavespectra.core.utils.scaled")
-    t = unparse(fi.node).replace(" ", "")
-    if "fac=(hs/spec.spec.hs())**2" in t and ("returnfac*spec" in t or "returnspec*fac" in t):
+    from ..astutil import returns as _rets, resolve as _res, factors as _fac
+    okS = False
+    rr = _rets(fi.node)
+    if len(rr) == 1:
+        fs = _fac(rr[0][1])
+        if len(fs) == 2 and any(unparse(f) == fi.params[0] for f in fs):
+            k = _res(fi.node, [f for f in fs if unparse(f) != fi.params[0]][0], before=rr[0][0].lineno + 1)
+            okS = isinstance(k, ast.BinOp) and isinstance(k.op, ast.Pow) and repo.const(fi.module, k.right) == 2 and isinstance(k.left, ast.BinOp) and \
+                isinstance(k.left.op, ast.Div) and unparse(k.left.left) == fi.params[1] and unparse(k.left.right).replace(" ", "") == f"{fi.params[0]}.spec.hs()"
+    if okS:
         rep.ok("R-C15-1", f"{fi.file}:{fi.node.lineno} scaled", "fac = (hs / spec.hs())**2; return fac * spec", "Hs is homogeneous of degree 1/2: the result has exactly the requested height")
     else:
         rep.fail("R-C15-1", fi.file, fi.node.lineno, fi.qualname, "scaled()", "scaling to a requested height multiplies by (hs / current hs) squared")
@@ -146,109 +154,123 @@ def forwarding(repo, rep):
 
 
 def spreading(repo, rep):
+    from ..astutil import returns, resolve, factors, dim_arg
     fi = repo.func(f"{DQ}.cartwright")
     D = repo.attrs.DIRNAME
-    body = fi.node.body
-    names = {}
-    order = []
-    for s in ast.walk(fi.node):
-        if isinstance(s, ast.Assign) and isinstance(s.targets[0], ast.Name):
-            order.append((s.lineno, s.targets[0].id, s))
-    order.sort(key=lambda x: x[0])
-    # wrapped angular difference
-    dth = [s for _, n, s in order if n == "dth"]
-    t = " ".join(unparse(s) for s in dth).replace(" ", "")
-    if "np.abs(dir-dm)" in t and "dth.where(dth<=180,360.0-dth)" in t or "dth.where(dth<=180,360-dth)" in t:
-        rep.ok("R-C15-3", f"{fi.file}:{dth[0].lineno} cartwright", "dth = |dir - dm| folded at 180", "angular distance taken the short way round")
+    pdir, pdm = fi.params[0], fi.params[1]
+    # the returned array Y:  return Y / R2D
+    rr = returns(fi.node)
+    if len(rr) != 1:
+        raise AnalysisError("cartwright: single return expected")
+    r0, rv = rr[0]
+    if isinstance(rv, ast.BinOp) and isinstance(rv.op, ast.Div) and isinstance(rv.left, ast.Name) and isinstance(repo.const(fi.module, rv.right), float) \
+            and abs(repo.const(fi.module, rv.right) - 57.29577951308232) < 1e-9:
+        Y = rv.left.id
+        rep.ok("R-C15-3", f"{fi.file}:{r0.lineno} cartwright", f"return {Y} / R2D", "per radian -> per degree")
     else:
-        rep.fail("R-C15-3", fi.file, dth[0].lineno if dth else fi.node.lineno, fi.qualname, t[:100], "the distance from the mean direction must be folded into [0, 180] (|d| or 360 - |d|)")
+        rep.fail("R-C15-3", fi.file, r0.lineno, fi.qualname, unparse(rv)[:80], "the normalised function (per radian) must be divided by R2D to be per degree")
+        return
+    yassign = sorted([n for n in ast.walk(fi.node) if isinstance(n, ast.Assign) and isinstance(n.targets[0], ast.Name) and n.targets[0].id == Y], key=lambda n: n.lineno)
+    # folded angular distance X: X = abs(dir - dm) ; X = X.where(X <= 180, 360 - X)
+    X = None
+    for n in ast.walk(fi.node):
+        if isinstance(n, ast.Assign) and isinstance(n.targets[0], ast.Name) and isinstance(n.value, ast.Call) and call_name(n.value) in ("np.abs", "np.absolute", "abs") \
+                and n.value.args and isinstance(n.value.args[0], ast.BinOp) and isinstance(n.value.args[0].op, ast.Sub) and \
+                {unparse(n.value.args[0].left), unparse(n.value.args[0].right)} == {pdir, pdm}:
+            X = n.targets[0].id
+    folded = False
+    if X:
+        for n in ast.walk(fi.node):
+            if isinstance(n, ast.Assign) and isinstance(n.targets[0], ast.Name) and n.targets[0].id == X and isinstance(n.value, ast.Call) and \
+                    isinstance(n.value.func, ast.Attribute) and n.value.func.attr == "where" and len(n.value.args) == 2:
+                c, o = n.value.args
+                if isinstance(c, ast.Compare) and unparse(c.left) == X and isinstance(c.ops[0], ast.LtE) and repo.const(fi.module, c.comparators[0]) == 180 and \
+                        isinstance(o, ast.BinOp) and isinstance(o.op, ast.Sub) and repo.const(fi.module, o.left) == 360 and unparse(o.right) == X:
+                    folded = True
+    if folded:
+        rep.ok("R-C15-3", f"{fi.file} cartwright", f"{X} = |dir - dm| folded at 180", "angular distance taken the short way round")
+    else:
+        rep.fail("R-C15-3", fi.file, fi.node.lineno, fi.qualname, "angular distance", "the distance from the mean direction must be folded into [0, 180] (|d| or 360 - |d|)")
     # every restriction relative to dm uses the folded distance
     for n in ast.walk(fi.node):
-        if isinstance(n, ast.Compare) and any(isinstance(x, ast.Name) and x.id == "dm" for x in ast.walk(n)):
+        if isinstance(n, ast.Compare) and any(isinstance(x, ast.Name) and x.id == pdm for x in ast.walk(n)):
             rep.fail("R-C15-3", fi.file, n.lineno, fi.qualname, unparse(n)[:100],
                      "a direction window around the mean direction is tested on raw direction labels: for dm within the window's half-width "
-                     "of the 0/360 seam the part of the lobe across the seam is cut off; the test must use the folded distance dth")
-    mask = [n for n in ast.walk(fi.node) if isinstance(n, ast.If) and unparse(n.test) == "under_90"]
-    if mask:
-        mt = unparse(mask[0]).replace(" ", "")
-        if "gth.where(np.abs(dth)<=90.0,0.0)" in mt or "gth.where(dth<=90.0,0.0)" in mt or "gth.where(dth<=90,0.0)" in mt:
-            rep.ok("R-C15-3", f"{fi.file}:{mask[0].lineno} cartwright", "under_90: gth.where(dth <= 90, 0)", "window on the folded distance")
-        elif "dth" not in mt:
-            pass       # already reported above
-    # normalisation after the mask, over dir, circle measure 2 pi / N, final / R2D
-    gsum = [s for _, n, s in order if n == "gsum"]
-    if not gsum:
-        raise AnalysisError("cartwright: normaliser not found")
-    g = gsum[0]
-    gt = unparse(g.value).replace(" ", "")
-    ok = "gth.sum(" in gt and "2*pi/dir.size" in gt and gt.startswith("1.0/(") or gt.startswith("1/(")
-    after_mask = not mask or g.lineno > mask[0].lineno
-    sums = [c for c in ast.walk(g.value) if isinstance(c, ast.Call) and isinstance(c.func, ast.Attribute) and c.func.attr == "sum"]
-    dim_ok = bool(sums) and ((sums[0].args and repo.const(fi.module, sums[0].args[0]) == D) or (kwarg(sums[0], "dim") is not None and repo.const(fi.module, kwarg(sums[0], "dim")) == D))
-    if ok and after_mask and dim_ok:
-        rep.ok("R-C15-3", f"{fi.file}:{g.lineno} cartwright", unparse(g)[:100], "normaliser from the same (masked) array over dir with circle measure 2 pi / N")
+                     "of the 0/360 seam the part of the lobe across the seam is cut off; the test must use the folded distance")
+    mask = [n for n in ast.walk(fi.node) if isinstance(n, ast.If) and isinstance(n.test, ast.Name) and n.test.id in fi.params]
+    for m in mask:
+        for n in ast.walk(m):
+            if isinstance(n, ast.Call) and isinstance(n.func, ast.Attribute) and n.func.attr == "where" and n.args:
+                names = {x.id for x in ast.walk(n.args[0]) if isinstance(x, ast.Name)} - {"np"}
+                if X and names == {X}:
+                    rep.ok("R-C15-3", f"{fi.file}:{n.lineno} cartwright", unparse(n)[:80], "window on the folded distance")
+    # normalisation: last assignment Y = Y * Z with Z = 1 / (Y.sum(dir) * (2 pi / N)), after the mask
+    if not yassign:
+        raise AnalysisError("cartwright: assignments of the spreading array not found")
+    last = yassign[-1]
+    fs = factors(last.value)
+    Z = None
+    if len(fs) == 2 and any(unparse(f) == Y for f in fs):
+        Z = resolve(fi.node, [f for f in fs if unparse(f) != Y][0], before=last.lineno)
+    okn = False
+    if Z is not None and isinstance(Z, ast.BinOp) and isinstance(Z.op, ast.Div) and repo.const(fi.module, Z.left) in (1, 1.0):
+        den = factors(Z.right)
+        sums = [f for f in den if isinstance(f, ast.Call) and isinstance(f.func, ast.Attribute) and f.func.attr == "sum" and unparse(f.func.value) == Y]
+        rest = [f for f in den if f not in sums]
+        dim_ok = bool(sums) and dim_arg(sums[0]) is not None and repo.const(fi.module, dim_arg(sums[0])) == D
+        meas = False
+        if len(rest) == 1:
+            m_ = rest[0]
+            # 2 * pi / dir.size
+            if isinstance(m_, ast.BinOp) and isinstance(m_.op, ast.Div) and unparse(m_.right).replace(" ", "") in (f"{pdir}.size", f"len({pdir})"):
+                c = repo.const(fi.module, m_.left)
+                meas = isinstance(c, float) and abs(c - 6.283185307179586) < 1e-12
+        zline = max([n.lineno for n in ast.walk(fi.node) if isinstance(n, ast.Assign) and n.value is Z] + [last.lineno])
+        after_mask = all(zline > m.lineno for m in mask)
+        okn = dim_ok and meas and after_mask and len(sums) == 1
+    if okn:
+        rep.ok("R-C15-3", f"{fi.file}:{last.lineno} cartwright", f"{Y} * 1/({Y}.sum({D}) * 2 pi / N)", "normaliser from the same (masked) array over dir with circle measure 2 pi / N")
     else:
-        rep.fail("R-C15-3", fi.file, g.lineno, fi.qualname, unparse(g)[:120],
+        rep.fail("R-C15-3", fi.file, last.lineno, fi.qualname, unparse(last)[:120],
                  "the spreading function must be normalised by the sum of the SAME array (after masking) over the direction dimension times the "
                  "uniform circle measure 2 pi / N, so that it integrates to one for every mean direction and grid orientation")
-    rets = [n for n in ast.walk(fi.node) if isinstance(n, ast.Return)]
-    rt = unparse(rets[-1].value).replace(" ", "")
-    if rt == "gth/R2D":
-        rep.ok("R-C15-3", f"{fi.file}:{rets[-1].lineno} cartwright", "return gth / R2D", "per radian -> per degree")
-    else:
-        rep.fail("R-C15-3", fi.file, rets[-1].lineno, fi.qualname, unparse(rets[-1]), "the normalised function (per radian) must be divided by R2D to be per degree")
     # units: per degree
     tab = NativeTable(repo, {})
-    ev = UEval(repo, fi, {"dir": Q({"deg": 1}, dims={D}), "dm": Q({"deg": 1}), "dspr": Q({"deg": 1})}, {"under_90": False}, tab)
+    ev = UEval(repo, fi, {pdir: Q({"deg": 1}, dims={D}), pdm: Q({"deg": 1}), fi.params[2]: Q({"deg": 1})}, {fi.params[3]: False} if len(fi.params) > 3 else {}, tab)
     ev.run()
-    for p in ev.problems:
-        if p.kind == "units":
-            rep.fail("R-C15-3", fi.file, p.node.lineno, fi.qualname, unparse(p.node)[:100], p.msg)
+    for p_ in ev.problems:
+        if p_.kind == "units":
+            rep.fail("R-C15-3", fi.file, p_.node.lineno, fi.qualname, unparse(p_.node)[:100], p_.msg)
     for node, v in ev.returns:
         if isinstance(v, Q) and v.u == {"m": 0, "s": 0, "deg": -1}:
             rep.ok("R-C15-3", f"{fi.file}:{node.lineno} cartwright", f"units {v.ustr()}", "spreading density per degree")
         else:
             rep.fail("R-C15-3", fi.file, node.lineno, fi.qualname, f"returns {v}", "a spreading function has units degree^-1")
-    # construct_partition
+    # construct_partition: return (<1-D shape> * <spreading>).fillna(0)
     cp = repo.func("wavespectra.construct.construct_partition")
-    t = unparse(cp.node).replace(" ", "")
-    if "dset=efth1d*spread" in t and "returndset.fillna(0.0)" in t:
-        rep.ok("R-C15-3", f"{cp.file}:{cp.node.lineno} construct_partition", "efth1d * spread, fillna(0)", "2-D spectrum = shape x spreading, nothing else")
+    okc = False
+    rr = returns(cp.node)
+    if len(rr) == 1:
+        r1, v1 = rr[0]
+        if isinstance(v1, ast.Call) and isinstance(v1.func, ast.Attribute) and v1.func.attr == "fillna" and v1.args and repo.const(cp.module, v1.args[0]) in (0, 0.0):
+            prod = resolve(cp.node, v1.func.value, before=r1.lineno + 1)
+            fs = factors(prod)
+            if len(fs) == 2:
+                srcs = [resolve(cp.node, f, before=r1.lineno + 1) for f in fs]
+                kinds = sorted(unparse(x.func) if isinstance(x, ast.Call) else "?" for x in srcs)
+                fn_src = {}
+                for x in srcs:
+                    if isinstance(x, ast.Call) and isinstance(x.func, ast.Name):
+                        fn_src[x.func.id] = resolve(cp.node, x.func, before=r1.lineno + 1)
+                mods = sorted(repo.const(cp.module, v.args[0]) for v in fn_src.values() if isinstance(v, ast.Call) and call_name(v) == "load_function" and v.args)
+                okc = mods == ["wavespectra.construct.direction", "wavespectra.construct.frequency"]
+    if okc:
+        rep.ok("R-C15-3", f"{cp.file}:{cp.node.lineno} construct_partition", "freq_func(...) * dir_func(...), fillna(0)", "2-D spectrum = shape x spreading, nothing else")
     else:
         rep.fail("R-C15-3", cp.file, cp.node.lineno, cp.qualname, "construct_partition", "the 2-D spectrum must be exactly frequency shape times spreading (missing values zero)")
 
 
-def monomial(repo, mod, e, local, depth=0):
-    """(coefficient, {symbol: exponent}) of a product / quotient / constant-power expression, or None."""
-    if depth > 10:
-        return None
-    c = repo.const(mod, e)
-    if isinstance(c, (int, float)) and not isinstance(c, bool):
-        return (float(c), {})
-    if isinstance(e, ast.Name) and e.id in local:
-        return monomial(repo, mod, local[e.id], local, depth + 1)
-    if isinstance(e, (ast.Name, ast.Attribute)):
-        return (1.0, {unparse(e): Fr(1)})
-    if isinstance(e, ast.UnaryOp) and isinstance(e.op, ast.USub):
-        m = monomial(repo, mod, e.operand, local, depth + 1)
-        return None if m is None else (-m[0], m[1])
-    if isinstance(e, ast.BinOp) and isinstance(e.op, (ast.Mult, ast.Div)):
-        l, r = monomial(repo, mod, e.left, local, depth + 1), monomial(repo, mod, e.right, local, depth + 1)
-        if l is None or r is None:
-            return None
-        sign = 1 if isinstance(e.op, ast.Mult) else -1
-        ex = dict(l[1])
-        for k, v in r[1].items():
-            ex[k] = ex.get(k, Fr(0)) + sign * v
-        coef = l[0] * r[0] if sign == 1 else l[0] / r[0]
-        return (coef, {k: v for k, v in ex.items() if v != 0})
-    if isinstance(e, ast.BinOp) and isinstance(e.op, ast.Pow):
-        n = repo.const(mod, e.right)
-        b = monomial(repo, mod, e.left, local, depth + 1)
-        if b is None or not isinstance(n, (int, float)):
-            return None
-        return (b[0] ** n, {k: v * Fr(n).limit_denominator(100) for k, v in b[1].items()})
-    return None
+from ..astutil import monomial  # noqa: E402
 
 
 def _locals(fi):
@@ -273,24 +295,60 @@ def _exp_arg(e, local):
     return None
 
 
+def _shape_terms(repo, fi):
+    """Decompose the un-scaled shape product of a frequency-shape function into (prefactor monomial, exponential
+    argument monomial, constants of the remaining factors, comparison of the sigma switch) - by shape, not by names."""
+    from ..astutil import resolve, factors
+    ren = {"fpeak": "fp", "hsig": "hs"}
+    rets = [n for n in ast.walk(fi.node) if isinstance(n, ast.Return) and isinstance(n.value, ast.Name)]
+    if not rets:
+        return None
+    out = rets[-1].value.id
+    firsts = sorted([n for n in ast.walk(fi.node) if isinstance(n, ast.Assign) and isinstance(n.targets[0], ast.Name) and n.targets[0].id == out], key=lambda n: n.lineno)
+    if not firsts:
+        return None
+    first = firsts[0]
+
+    def flat(x, sign, acc):
+        x = resolve(fi.node, x, before=first.lineno + 1) if isinstance(x, ast.Name) else x
+        if isinstance(x, ast.BinOp) and isinstance(x.op, ast.Mult):
+            flat(x.left, sign, acc); flat(x.right, sign, acc)
+        elif isinstance(x, ast.BinOp) and isinstance(x.op, ast.Div):
+            flat(x.left, sign, acc); flat(x.right, -sign, acc)
+        else:
+            acc.append((x, sign))
+    fac = []
+    flat(first.value, 1, fac)
+    coef, ex, exps, others = 1.0, {}, [], []
+    for x, sg in fac:
+        if isinstance(x, ast.Call) and call_name(x) in ("np.exp", "numpy.exp") and sg == 1:
+            exps.append(x)
+            continue
+        m = monomial(repo, fi.module, x, {})
+        if m is None:
+            others.append(x)
+            continue
+        coef = coef * m[0] if sg > 0 else coef / m[0]
+        for k, v in m[1].items():
+            ex[k] = ex.get(k, Fr(0)) + sg * v
+    pre = _norm((coef, {k: v for k, v in ex.items() if v != 0}), ren)
+    arg = _norm(monomial(repo, fi.module, exps[0].args[0], {}), ren) if len(exps) == 1 else None
+    oc = sorted(float(repo.const(fi.module, n)) for o in others for n in ast.walk(o) if isinstance(n, ast.Constant) and isinstance(n.value, (int, float)))
+    # follow names inside the remaining factors one level for their constants (sigma etc. are separate)
+    sw = None
+    for n in ast.walk(fi.node):
+        if isinstance(n, ast.Call) and call_name(n) in ("np.where", "xr.where", "numpy.where") and n.args and isinstance(n.args[0], ast.Compare):
+            c = n.args[0]
+            sw = (type(c.ops[0]).__name__, ren.get(unparse(c.comparators[0]), unparse(c.comparators[0])))
+    return pre, arg, oc, sw
+
+
 def twins(repo, rep):
     a, b = repo.func(f"{FQ}.jonswap"), repo.func("wavespectra.core.npstats.jonswap")
-    la, lb = _locals(a), _locals(b)
     ren = {"fpeak": "fp", "hsig": "hs"}
-    facts = {}
-    for tag, fi, loc in (("xarray", a, la), ("numpy", b, lb)):
-        t1 = _norm(monomial(repo, fi.module, loc.get("term1"), {}), ren) if "term1" in loc else None
-        arg2 = _exp_arg(loc.get("term2"), loc) if "term2" in loc else None
-        t2 = _norm(monomial(repo, fi.module, arg2, {}), ren) if arg2 is not None else None
-        t3 = sorted(float(repo.const(fi.module, n)) for n in ast.walk(loc["term3"]) if isinstance(n, ast.Constant) and isinstance(n.value, (int, float))) if "term3" in loc else None
-        sw = None
-        if "sigma" in loc:
-            for n in ast.walk(loc["sigma"]):
-                if isinstance(n, ast.Compare):
-                    sw = (type(n.ops[0]).__name__, ren.get(unparse(n.comparators[0]), unparse(n.comparators[0])))
-        facts[tag] = (t1, t2, t3, sw)
-    if None in facts["xarray"] or None in facts["numpy"]:
-        raise AnalysisError("jonswap twins: term1/term2/term3/sigma structure not found")
+    facts = {"xarray": _shape_terms(repo, a), "numpy": _shape_terms(repo, b)}
+    if facts["xarray"] is None or facts["numpy"] is None or None in facts["xarray"][:2] or None in facts["numpy"][:2]:
+        raise AnalysisError("jonswap twins: shape product not understood")
     want_t1 = (round(9.80665 ** 2 / (2 * 3.141592653589793) ** 4, 12), (("alpha", Fr(1)), ("freq", Fr(-5))))
     if facts["xarray"] == facts["numpy"]:
         rep.ok("R-C15-4", "construct.frequency.jonswap <-> npstats.jonswap", f"prefactor {facts['xarray'][0]}, exponent {facts['xarray'][1]}, sigma switch {facts['xarray'][3]}",
@@ -303,34 +361,10 @@ def twins(repo, rep):
                  "JONSWAP is alpha g^2 (2 pi)^-4 f^-5 exp(-5/4 (f/fp)^-4) gamma^exp(...) with the sigma switch at f <= fp")
     # Pierson-Moskowitz = the same prefactor and exponential
     pm = repo.func(f"{FQ}.pierson_moskowitz")
-    lp = _locals(pm)
-    e = lp.get("dsout")
-    fac = []
-
-    def flat(x, sign):
-        if isinstance(x, ast.BinOp) and isinstance(x.op, ast.Mult):
-            flat(x.left, sign); flat(x.right, sign)
-        elif isinstance(x, ast.BinOp) and isinstance(x.op, ast.Div):
-            flat(x.left, sign); flat(x.right, -sign)
-        else:
-            fac.append((x, sign))
-    if e is None:
-        raise AnalysisError("pierson_moskowitz: dsout expression not found")
-    flat(e, 1)
-    exps = [x for x, s_ in fac if isinstance(x, ast.Call) and call_name(x) in ("np.exp", "numpy.exp")]
-    rest = [(x, s_) for x, s_ in fac if not (isinstance(x, ast.Call) and call_name(x) in ("np.exp", "numpy.exp"))]
-    coef, ex = 1.0, {}
-    okm = True
-    for x, s_ in rest:
-        m = monomial(repo, pm.module, x, {})
-        if m is None:
-            okm = False
-            break
-        coef = coef * m[0] if s_ > 0 else coef / m[0]
-        for k, v in m[1].items():
-            ex[k] = ex.get(k, Fr(0)) + s_ * v
-    pre = _norm((coef, {k: v for k, v in ex.items() if v != 0}), ren) if okm else None
-    arg = _norm(monomial(repo, pm.module, exps[0].args[0], {}), ren) if len(exps) == 1 else None
+    pt = _shape_terms(repo, pm)
+    if pt is None:
+        raise AnalysisError("pierson_moskowitz: shape product not understood")
+    pre, arg = pt[0], pt[1]
     if pre == facts["xarray"][0] and arg == facts["xarray"][1]:
         rep.ok("R-C15-4", f"{pm.file}:{pm.node.lineno} pierson_moskowitz", f"prefactor {pre}, exponent {arg}", "identical to JONSWAP's first two factors (gamma = 1)")
     else:
@@ -344,8 +378,9 @@ def twins(repo, rep):
         for n in ast.walk(fi.node):
             if isinstance(n, ast.Call) and call_name(n) in ("np.exp", "numpy.exp"):
                 out.append(sorted(float(c.value) for c in ast.walk(n) if isinstance(c, ast.Constant) and isinstance(c.value, (int, float))))
-        mo = loc.get("mo")
-        out.append(_norm(monomial(repo, fi.module, mo, {}), ren) if mo is not None else None)
+        consts = sorted(round(float(repo.const(fi.module, c)), 9) for c in ast.walk(fi.node) if isinstance(c, ast.Constant) and isinstance(c.value, (int, float))
+                        and not isinstance(getattr(c, "_parent", None), ast.Expr))
+        out.append(consts)
         return out
     if gfacts(g1) == gfacts(g2) and None not in gfacts(g1):
         rep.ok("R-C15-4", "construct.frequency.gaussian <-> npstats.gaussian", str(gfacts(g1)), "agree")
